@@ -58,11 +58,40 @@ Proof.
 Qed.
 Print Assumptions C22_reader_repairs.
 
+(* READ-ONLY readers (registry opened with readWrite=false, as every non-writing transaction does):
+   restoreFromCow copies the backup into the buffer, the write-back fails on the O_RDONLY handle
+   and is ignored.  Such a reader of any recoverable state still returns a or b (the restored
+   image, never the torn bytes); it does NOT repair the file (a torn block stays torn, with its
+   backup) and leaves the state recoverable, so a later read-write reader repairs it
+   (C22_reader_repairs). *)
+Theorem C22_readonly_reader : forall crc fx a b d, Rec crc a b d -> detects crc a b ->
+  exists v d', read_restore_ro crc fx d = (d', ROk v) /\ (v = a \/ v = b) /\ valid crc v = true /\
+               Rec crc a b d' /\ (valid crc (blk d) = false -> d' = d /\ cow d = Some v).
+Proof. exact read_rec_ro. Qed.
+Print Assumptions C22_readonly_reader.
+
+(* in particular after an update of an intact block died at ANY point: the read-only reader
+   returns the block entirely as before or entirely as written *)
+Theorem C22_crash_readonly_reader : forall crc fx old d off data p,
+  length old = BSZ -> valid crc old = true -> blk d = old -> slot_ok off data ->
+  detects crc old (new_block crc old off data) ->
+  exists v d', read_restore_ro crc fx (crash_state crc fx d off data p) = (d', ROk v) /\
+               (v = old \/ v = new_block crc old off data) /\ valid crc v = true /\
+               Rec crc old (new_block crc old off data) d'.
+Proof.
+  intros crc fx old d off data p Hl Hv Hb Hs Hd.
+  pose proof (crash_state_rec_stable crc fx old d off data p Hl Hv Hb Hs) as HR.
+  destruct (read_rec_ro crc fx _ _ _ HR Hd) as (v & d' & H1 & H2 & H3 & H4 & _). eauto 10.
+Qed.
+Print Assumptions C22_crash_readonly_reader.
+
 (* A reader WITHOUT the block lock (findOneFileRegion) next to a writer that does not crash: it
    reads the block while the writer is at p1 and, if the checksum failed, looks for the backup at
    p2 >= p1.  It returns old or new — except in one window: it saw the torn block and the writer
    removed the backup before the reader looked for it.  There the patched reader reports an
-   error; the reader in /repo returns the torn block. *)
+   error; the reader in /repo returns the torn block.  [conc_read] is the value returned; it is
+   the same for read-only and read-write readers (they differ only in writing the restored image
+   back). *)
 Theorem C22_concurrent : forall crc fx old c0 new p1 p2,
   length old = BSZ -> length new = BSZ -> valid crc old = true -> valid crc new = true ->
   detects crc old new -> phase_le p1 p2 = true ->
